@@ -550,6 +550,18 @@ def _run_track(case, ctx):
         _reuse_base_object(base)
         ctx.count("caller_reuses_base_object")
         _base_recorded(tr, b1, "toENUCoords(%s base), after the caller modified its own base object" % form, ctx)
+        if len(pts) % 4 == 0:
+            # ... and then USES the moved object as the base of the very next conversion (one "current station"
+            # object moved from station to station): the frame is that of the base as it is NOW
+            here = type(base)(base.getX(), base.getY(), base.getZ())
+            o = _need(M.call(here.toENUCoords, base), "toENUCoords(base) of a point at the base, after the caller moved "
+                      "its base object", base_now=[base.getX(), base.getY(), base.getZ()], base_form=form)
+            ctx.monitor("base.origin")
+            ctx.count("moved_base_object_used_again_at_once")
+            if not _finite(o.getX(), o.getY(), o.getZ()) or max(abs(o.getX()), abs(o.getY()), abs(o.getZ())) > TOL_ORIGIN:
+                raise Bad({"what": "a base object moved in place by the caller and used again as a base: a point at the "
+                                   "base does not map to (0,0,0)", "got": [o.getX(), o.getY(), o.getZ()],
+                           "base_now": [base.getX(), base.getY(), base.getZ()], "base_before": b1, "base_form": form})
     if len(pts) % 3 == 1:
         # error path: conversion requests on the local track that cannot be honoured (a projection identifier where a
         # base point is expected; ENU -> ENU without a new base); what they raise is not judged -- the conversions
@@ -743,7 +755,7 @@ def classify(case, witness):
 
 # floors for the call-history workloads added in session 3 (a run in which they were silently skipped is inconclusive)
 _floors_base = floors
-_FLOORS_EXTRA = {'counters': {'caller_reuses_base_object': 200, 'second_track_with_the_same_base_object': 100,
+_FLOORS_EXTRA = {'counters': {'caller_reuses_base_object': 200, 'moved_base_object_used_again_at_once': 100, 'second_track_with_the_same_base_object': 100,
                               'track_rebased_to_a_base_above_or_below_the_first': 25}}
 
 
